@@ -40,7 +40,7 @@ def run(ctx, res):
             name = T.gen_name(rng, used) if kind == "k7" else D.gen_disk_name(rng, used)
             if any(T.split_source(name)[4].lower() == T.split_source(n)[4].lower() for n, _ in files):
                 continue
-            files.append((name, T.content_for(rng, rng.choice([0, 1, 254, 255, 300, 2041, 5000]))))
+            files.append((name, T.content_for(rng, rng.choice([0, 1, 254, 255, 300, 1800, 2040, 2041, 4080, 5000]))))
         case = {"kind": kind, "files": [(n, len(c)) for n, c in files]}
         st.see(case, nontrivial=len(files) > 0)
         variants = {}
